@@ -559,7 +559,7 @@ for _p in ARENA:
 # ----------------------------------------------------------------------------------------
 COLLS = {
     'C06': dict(x=['accounted', 'lost', 'unknown element', 'stale slot', 'drops do not match', 'was dropped while moving', 'helpers:'],
-                note='PARTIAL: conservation proved for the modelled algorithms (now including into_iter, splice, map_in_place with a panicking closure, append); map / extend with lying size hints / resize_with / dedup_by_key / into_boxed_slice / partition are covered by the drop-count monitor and std Vec in lock-step only (extras probe); the allocation helpers and collections of zero-sized elements are covered by birth/drop-count probes (helpers probe, HP / HZ lines), the two zero-sized branches that were defective are modelled in both versions (pinned refuted, repaired proved)'),
+                note='PARTIAL: conservation proved for the modelled algorithms (now including into_iter, splice, map_in_place with a panicking closure, append, and the growth by a producer that may panic at any call: extend_from_slice_clone / extend_from_within_clone / extend(iterator) / resize_with / resize, the consuming map, dedup_by_key); extend with lying size hints / into_boxed_slice / partition are covered by the drop-count monitor and std Vec in lock-step only (extras probe); the allocation helpers and collections of zero-sized elements are covered by birth/drop-count probes (helpers probe, HP / HZ lines), the two zero-sized branches that were defective are modelled in both versions (pinned refuted, repaired proved)'),
     'C08': dict(x=['std::vec::Vec', 'contents differ', 'returned values differ', 'capacity:', 'capacity ', 'cap history', 'helpers: contents', 'helpers: std::vec::Vec panics', 'overwrote a neighbouring allocation', 'yielded', 'len() of the iterator', 'accounted', 'lost'],
                 note='list-function refinement proved for the modelled operations; capacity clauses proved for BumpVec / FixedBumpVec / MutBumpVec / MutBumpVecRev over the capacity model VecCap.v (capacity >= length in every reachable state, reserve / reserve_exact / with_capacity keep their promise, no allocator call and no move while the promise suffices, amortised doubling, a fixed vector never reallocates and fails exactly when full) and replayed from capacity histories; PARTIAL: zero-sized element types and unmodelled operations are checked against std::vec::Vec in lock-step only'),
     'C16': dict(x=['split_off capacities', 'split_off part', 'changed the remaining part', 'changed the split-off part', 'parts:'],
@@ -701,7 +701,7 @@ def check_colls(ctx):
             ctx.cov.update({
                 'evaluations': S['cases'],
                 'distinct_nontrivial': min(S['nontrivial'], S['distinct']),
-                'rule': 'one operation per case on a freshly built collection (BumpVec, MutBumpVec, FixedBumpVec, BumpBox<[T]>, MutBumpVecRev mirrored) of 0..12 identified elements; operations truncate/pop/remove/swap_remove/insert/push/retain/dedup_by/drain (both ends, dropped / keep_rest / leaked)/extract_if (early drop)/split_off with boundary and out-of-range arguments; callback answers scripted per invocation with a panic at a random invocation in 1/3 of the cases; a panicking Drop in 1/8; every case replayed on the extracted Coq model (kept / handed out / dropped / unwound / number of callback invocations compared) and on std::vec::Vec in lock-step; every 10th case is a capacity history of a BumpVec / FixedBumpVec / MutBumpVec / MutBumpVecRev (1-40 reserve / reserve_exact / push / extend / pop / truncate / shrink_to(_fit) operations, element sizes 1/4/8/24/1600, refusals, absurd sizes) replayed on VecCap.v; every 5th case is one operation dividing or merging a BumpBox<[T]> of 0..11 drop-counting elements (split_at incl. out of range, split_first/last, split_off_first/last, partition with per-element scripted answers, merge of two of three adjacent windows in any order), replayed on Parts.v; plus into_iter/splice/map_in_place/append (extras), overflow probes of try_reserve(_exact). non-trivial = cases that dropped, handed out or unwound (counted by the driver); distinct = distinct (kind, op, renumbered input, answers, drop-panic set)',
+                'rule': 'one operation per case on a freshly built collection (BumpVec, MutBumpVec, FixedBumpVec, BumpBox<[T]>, MutBumpVecRev mirrored) of 0..12 identified elements; operations truncate/pop/remove/swap_remove/insert/push/retain/dedup_by/drain (both ends, dropped / keep_rest / leaked)/extract_if (early drop)/split_off with boundary and out-of-range arguments; callback answers scripted per invocation with a panic at a random invocation in 1/3 of the cases; a panicking Drop in 1/8; every case replayed on the extracted Coq model (kept / handed out / dropped / unwound / number of callback invocations compared) and on std::vec::Vec in lock-step; every 10th case is a capacity history of a BumpVec / FixedBumpVec / MutBumpVec / MutBumpVecRev (1-40 reserve / reserve_exact / push / extend / pop / truncate / shrink_to(_fit) operations, element sizes 1/4/8/24/1600, refusals, absurd sizes) replayed on VecCap.v; every 5th case is one operation dividing or merging a BumpBox<[T]> of 0..11 drop-counting elements (split_at incl. out of range, split_first/last, split_off_first/last, partition with per-element scripted answers, merge of two of three adjacent windows in any order), replayed on Parts.v; plus into_iter/splice/map_in_place/append (extras), every 5th case one growth by a producer with a scripted panic (extend_from_slice_clone / extend_from_within_clone, extend from an iterator with or without a size hint, resize_with, resize, the consuming map into a same-size and a wider type, dedup_by_key with scripted keys) replayed on Colls.v, every 10th case the raw views (spare_capacity_mut / split_at_spare_mut / set_len, from_init / from_uninit / is_full, BumpBox and Bump raw round trips, leaking conversions) with std::vec::Vec and a birth / drop ledger, the one-element operations through every spelling (push / push_with / push_mut / push_mut_with, insert / insert_mut and the try_ twins), overflow probes of try_reserve(_exact). non-trivial = cases that dropped, handed out or unwound (counted by the driver); distinct = distinct (kind, op, renumbered input, answers, drop-panic set)',
                 'samples': res['samples'],
                 'traces_validated_against_impl': S['cases'],
                 'input_distribution': {'by_kind_op': S['by_kind_op'], 'unwound': S['unwound'], 'with_drop_panic': S['with_drop_panic']},
